@@ -1,10 +1,12 @@
 package c19
 
 import (
+	"bytes"
 	"strings"
 	"testing"
 
 	"github.com/canopy-network/canopy/bft"
+	"github.com/canopy-network/canopy/lib"
 	"google.golang.org/protobuf/proto"
 )
 
@@ -38,7 +40,7 @@ func TestC19Reg_RcBuildHeightSigned(t *testing.T) {
 		t.Fatalf("harness: PROPOSE carries rcBuildHeight %d", m.RcBuildHeight)
 	}
 	m.RcBuildHeight--
-	res := runScenario(sc, e.id, m, nil, false)
+	res := runScenario(sc, e.id, m, nil, orderReplace)
 	for to, errText := range res.accepted {
 		if errText == "" {
 			t.Errorf("replica %d accepted a PROPOSE whose RcBuildHeight was rewritten %d->%d under the leader's original signature", to, sc.height, m.RcBuildHeight)
@@ -69,7 +71,7 @@ func TestC19Reg_ElectionVoteUnsignedFields(t *testing.T) {
 		t.Fatalf("harness: vote carries rcBuildHeight %d", m.RcBuildHeight)
 	}
 	m.RcBuildHeight--
-	res := runScenario(sc, e.id, m, nil, true) // the honest copy arrives right after the rewritten one
+	res := runScenario(sc, e.id, m, nil, orderMutantFirst) // the honest copy arrives right after the rewritten one
 	if bad := tracesWith(res.trace, "ValidateProposal(rcBuildHeight=2 "); len(bad) != 0 {
 		t.Errorf("a relay rewrote RcBuildHeight 3->2 in replica %d's signed ELECTION_VOTE; the leader accepted it (%q) and all replicas validated the re-proposed locked block against root height 2 (the honest copy arriving afterwards did not help):\n%s",
 			e.from, res.accepted[e.to[0]], strings.Join(bad, "\n"))
@@ -81,7 +83,7 @@ func TestC19Reg_ElectionVoteUnsignedFields(t *testing.T) {
 	e = findEnv(t, base, func(e *env) bool { return e.kind == "ELECTION_VOTE" && len(e.msg.LastDoubleSignEvidence) != 0 })
 	m = proto.Clone(e.msg).(*bft.Message)
 	m.LastDoubleSignEvidence[0].VoteA.Header.NetworkId = 0
-	res = runScenario(sc, e.id, m, nil, false)
+	res = runScenario(sc, e.id, m, nil, orderReplace)
 	if okBase, okMut := tracesWith(base.trace, "ProduceProposal(evidence=1:"), tracesWith(res.trace, "ProduceProposal(evidence=1:"); len(okBase) == 1 && len(okMut) == 0 && res.accepted[e.to[0]] == "" {
 		t.Errorf("a relay corrupted the double-sign evidence inside replica %d's signed ELECTION_VOTE; the leader still counted the vote but built its proposal without the evidence:\n%s",
 			e.from, strings.Join(tracesWith(res.trace, "ProduceProposal("), "\n"))
@@ -96,11 +98,50 @@ func TestC19Reg_CommitTimestampSigned(t *testing.T) {
 	e := findEnv(t, base, func(e *env) bool { return e.kind == "COMMIT" })
 	m := proto.Clone(e.msg).(*bft.Message)
 	m.Timestamp += 30_000_000
-	res := runScenario(sc, e.id, m, nil, false)
+	res := runScenario(sc, e.id, m, nil, orderReplace)
 	a, b := tracesWith(base.trace, "Commit("), tracesWith(res.trace, "Commit(")
 	for to, errText := range res.accepted {
 		if errText == "" && strings.Join(a, "\n") != strings.Join(b, "\n") {
 			t.Errorf("replica %d accepted a COMMIT whose Timestamp was rewritten under the leader's signature and passed it on:\n original: %s\n mutant  : %s", to, a[to], b[to])
 		}
+	}
+}
+
+// flipInHeaderHash flips one bit inside the `hash` field of the block header carried in qc.block: Block.BytesToBlockHash
+// (QuorumCertificate.CheckBasic) hashes the header WITHOUT that field, so the certificate's block hash still matches.
+func flipInHeaderHash(t *testing.T, m *bft.Message) {
+	blk := new(lib.Block)
+	if e := lib.Unmarshal(m.Qc.Block, blk); e != nil {
+		t.Fatal(e)
+	}
+	i := bytes.Index(m.Qc.Block, blk.BlockHeader.Hash)
+	if i < 0 {
+		t.Fatal("harness: header hash not found in the block bytes")
+	}
+	m.Qc.Block = append([]byte(nil), m.Qc.Block...)
+	m.Qc.Block[i+5] ^= 0x10
+}
+
+// Decision for "is qc.block of a leader message hash-bound": in MEANING yes, end to end (TestC19aBlockBinding), but only by
+// the validation that follows HandleMessage. What this test pins: a relayed copy of an honest PROPOSE with a byte changed in
+// a region CheckBasic does not bind keeps the leader's valid signature, passes HandleMessage and must not REPLACE the honest
+// proposal a replica already holds (bft.AddProposal overwrites: the replica would then fail validation, interrupt the round
+// and an honest leader's round is lost although every replica received the honest message).
+func TestC19Reg_RelayedProposalDoesNotReplaceHonestOne(t *testing.T) {
+	sc := scenarios[0]
+	base := baseline(sc)
+	e := findEnv(t, base, func(e *env) bool { return e.kind == "PROPOSE" })
+	m := proto.Clone(e.msg).(*bft.Message)
+	flipInHeaderHash(t, m)
+	res := runScenario(sc, e.id, m, nil, orderHonestFirst)
+	acc := 0
+	for _, errText := range res.accepted {
+		if errText == "" {
+			acc++
+		}
+	}
+	if diff := firstDiff(external(base.trace), external(res.trace)); diff != "" {
+		t.Errorf("every replica received the honest PROPOSE and THEN a relayed copy with one bit flipped in the block's header-hash field (leader's signature still valid, accepted by %d of 4 replicas): the copy replaced the stored proposal and the round went differently (%d of 4 replicas commit):%s\n%s",
+			acc, res.commits, diff, strings.Join(tracesWith(res.trace, "ValidateProposal"), "\n"))
 	}
 }
